@@ -120,6 +120,12 @@ def combine_rules(ctx, rule):
 
 
 def run(ctx):
+    # a cloned circuit must check what the original checks (hand-written Clone impls, shared with C01), and the multithreaded
+    # gadget must compute what the serial one does (shared with C14): otherwise invalid reports pass for those instances
+    from rules.common import clone_faithful
+    clone_faithful(ctx, "R-C02.CL")
+    from rules import c14
+    c14.run(ctx)
     # decide + query core (shared with C05)
     flp_guards.decide_guards(ctx, rule="R-C02.G.decide")
     flp_guards.query_guards(ctx, rule="R-C02.G.query")
